@@ -17,6 +17,14 @@ def sh(cmd, cwd=None, env=None, timeout=3600):
     return p.returncode, p.stdout + p.stderr
 
 
+OWN_ONLY = bool(os.environ.get("MATRIX_OWN_ONLY"))
+D_OWN = {"D4": "C20", "D9": "C20", "D12": "C06", "D14": "C20"}
+
+
+def own_of(mid):
+    return D_OWN.get(mid, "C19") if mid.startswith("D") else mid[:3]
+
+
 def run_mutant(mid, slot):
     wt = f"/tmp/wt/m{slot}"
     out = f"/tmp/wt/out{slot}"
@@ -29,13 +37,17 @@ def run_mutant(mid, slot):
     shutil.rmtree(out, ignore_errors=True)
     res = {}
     env = dict(os.environ, VERIF_REPO=wt, VERIF_OUT=out, VERIF_JOBS="4", VERIF_SKIP_BUILD="1")
-    for p in PAR:
+    for p in ([q for q in PAR if q == own_of(mid)] if OWN_ONLY else PAR):
         rc, o = sh(f"./check {p} quick", cwd=V, env=env, timeout=1200)
         v = [l for l in o.splitlines() if l.startswith("VIOLATION")]
         res[p] = {"rc": rc, "violations": len(v), "with_failing_input": sum("no-failing-input-found" not in l for l in v)}
         if rc == 2:
             res[p]["log"] = o[-300:]
     # C20 regenerates Lean facts inside V/lean (shared), so one at a time; still on the scratch worktree
+    if OWN_ONLY and own_of(mid) != "C20":
+        sh("git checkout -q -- .", cwd=wt)
+        res["own_only"] = True
+        return mid, res
     with C20_LOCK:
         env20 = dict(os.environ, VERIF_REPO=wt, VERIF_OUT=out, VERIF_JOBS="4")
         rc, o = sh("./check C20 quick", cwd=V, env=env20, timeout=1800)
